@@ -10,6 +10,15 @@ import (
 
 var verifNames = []string{"a", "d", "d/a", "d/l"}
 
+// verifNameCount: the thorough tier builds three entries over the first three names (aliasing, nesting and cycles are
+// all still expressible), the quick tier two entries over all four.
+func verifNameCount() int {
+	if vr.Tier() > 0 {
+		return 3
+	}
+	return len(verifNames)
+}
+
 // verifTOCEntry builds one TOC entry of arbitrary type with a name (and link target) from a small set of paths
 // that can alias, nest and form cycles; every numeric field is an arbitrary int64.
 func verifTOCEntry(k int) *TOCEntry {
@@ -17,7 +26,7 @@ func verifTOCEntry(k int) *TOCEntry {
 	switch vr.Choice("type", 5) {
 	case 0:
 		e.Type = "reg"
-		e.Name = verifNames[vr.Choice("name", len(verifNames))]
+		e.Name = verifNames[vr.Choice("name", verifNameCount())]
 		e.Size = vr.I64("size")
 		e.ChunkSize = vr.I64("chunksize")
 		e.ChunkOffset = vr.I64("chunkoffset")
@@ -31,14 +40,14 @@ func verifTOCEntry(k int) *TOCEntry {
 		e.InnerOffset = vr.I64("inneroffset")
 	case 2:
 		e.Type = "dir"
-		e.Name = verifNames[vr.Choice("name", len(verifNames))] + "/"
+		e.Name = verifNames[vr.Choice("name", verifNameCount())] + "/"
 	case 3:
 		e.Type = "hardlink"
-		e.Name = verifNames[vr.Choice("name", len(verifNames))]
-		e.LinkName = verifNames[vr.Choice("link", len(verifNames))]
+		e.Name = verifNames[vr.Choice("name", verifNameCount())]
+		e.LinkName = verifNames[vr.Choice("link", verifNameCount())]
 	default:
 		e.Type = "symlink"
-		e.Name = verifNames[vr.Choice("name", len(verifNames))]
+		e.Name = verifNames[vr.Choice("name", verifNameCount())]
 		e.LinkName = "x"
 	}
 	return e
